@@ -31,9 +31,12 @@ def run_driver(ctx, mode, jobs, timeout):
     out, summ = ctx.path("%s_obs.jsonl" % mode), ctx.path("%s_summary.json" % mode)
     ctx.drv([mode, "-plan", plan, "-out", out, "-summary", summ], timeout=timeout, cmd_name="vdrv-wire")
     obs, errs = {}, []
+    ctx.notes.setdefault("right_after_prepare", [])
     for r in core.read_ndjson(out):
         if r.get("err"):
             errs.append("env %s: %s" % (r["env"], r["err"]))
+        if r.get("right_after_prepare"):
+            ctx.notes["right_after_prepare"].append(dict(r["right_after_prepare"], env=r["env"]))
         for o in r.get("obs") or []:
             obs[(r["env"], o["i"])] = o
     return obs, json.load(open(summ)), errs
